@@ -225,6 +225,34 @@ def h_step_report(ctx):
     ctx.observe("report", [rep.fraction_lost, rep.packets_lost, rep.highest_sequence, rep.jitter])
 
 
+def h_many_streams(ctx, n):
+    """A receiver that has seen n SSRCs (an RTCP report packet holds at most 31 blocks): one
+    _run_rtcp iteration must still build valid receiver reports covering every stream once."""
+    tr = _Transport()
+    r = RTCRtpReceiver("video", tr)
+    rssrc = ctx.int("rtcp_ssrc", 0, U32)
+    streams = {}
+    for i in range(n):  # concrete SSRCs: n symbolic dictionary keys would cost n^2 comparisons
+        s = StreamStatistics(90000)
+        s.base_seq, s.max_seq, s.cycles, s.packets_received = 10, 10 + i, 0, i + 1
+        streams[1000 + i] = s
+    r._RTCRtpReceiver__remote_streams = streams
+    r._set_rtcp_ssrc(rssrc)
+    stub = _AsyncioStub()
+    with Patch(recv, asyncio=stub, random=_Random()):
+        sx.run(r._run_rtcp())
+    ctx.reach("many-streams-reported")
+    seen = []
+    for d in tr.sent:
+        for pk in RtcpPacket.parse(d):  # must parse
+            ctx.check(isinstance(pk, RtcpRrPacket), "is-receiver-report")
+            ctx.check(len(pk.reports) <= 31, "at-most-31-report-blocks-per-packet")
+            seen += [rep.ssrc for rep in pk.reports]
+    want = sorted(streams.keys())
+    ctx.check(sorted(seen) == want, "every-stream-reported-exactly-once", "%d reported, %d streams" % (len(seen), len(want)))
+    ctx.observe("n", len(seen))
+
+
 def h_receiver_rtx_stats(ctx, order):
     """Per-SSRC counting at the receiver: a retransmission arriving on the RTX SSRC (also an empty
     RTX padding probe) is counted for the RTX SSRC, never for the media SSRC it repairs."""
@@ -368,6 +396,7 @@ HARNESSES = {
         stubs=STUBS,
         twin="added",
     ),
+    "many-streams": Harness("many-streams", h_many_streams, lambda tier: [{"n": n} for n in (1, 31, 32, 33, 64, 130)], style="NC (targeted, concrete count)", bounds="1, 31, 32, 33, 64 and 130 remote SSRCs on one receiver, one report round", encoded=ENC, stubs=STUBS, twin="many-streams-reported"),
     "receiver-rtx-stats": Harness("receiver-rtx-stats", h_receiver_rtx_stats, lambda tier: [{"order": o} for o in ("mr", "rm", "mrp", "pmr", "r", "p")], style="STEP", bounds="real RTCRtpReceiver._handle_rtp_packet with RTX negotiated: a media packet, a retransmission of its successor and an empty RTX probe in 6 orders; media and RTX sequence origins symbolic", encoded=ENC + ["aiortc.rtcrtpreceiver:RTCRtpReceiver._handle_rtp_packet"], stubs=STUBS, twin="rtx-stats-fed", opts={"samples": 1}),
     "step-report": Harness(
         "step-report", h_step_report, lambda tier: [{}], style="STEP", bounds="one report from an arbitrary state under Inv, built and serialised by the real _run_rtcp, parsed back", encoded=ENC, stubs=STUBS, twin="rtcp-iteration-done"
